@@ -13,7 +13,7 @@ use serde_json::json;
 fn cfg() -> CaseCfg {
     CaseCfg {
         table: TableCfg { alpha_pct: 70, max_bin: 6, ..TableCfg::default() },
-        tree: TreeCfg { max_operands: 10, lit_pct: 35, unary_pct: 15, shape_weights: [4, 2, 4] },
+        tree: TreeCfg { max_operands: 10, lit_pct: 35, unary_pct: 15, shape_weights: [4, 2, 4], ..TreeCfg::default() },
         render: RenderCfg { call_pct: 65, sym_call_pct: 20, redundant_paren_pct: 10, ..RenderCfg::default() },
         max_vars: 4,
         weird_pct: 5,
@@ -22,7 +22,7 @@ fn cfg() -> CaseCfg {
 fn cfg_deep() -> CaseCfg {
     CaseCfg {
         table: TableCfg { alpha_pct: 85, max_bin: 4, max_un: 2, ..TableCfg::default() },
-        tree: TreeCfg { max_operands: 40, lit_pct: 35, unary_pct: 6, shape_weights: [2, 2, 6] },
+        tree: TreeCfg { max_operands: 40, lit_pct: 35, unary_pct: 6, shape_weights: [2, 2, 6], ..TreeCfg::default() },
         render: RenderCfg { call_pct: 85, sym_call_pct: 30, redundant_paren_pct: 4, ..RenderCfg::default() },
         max_vars: 4,
         weird_pct: 0,
